@@ -49,7 +49,8 @@ PROP = "C05"
 # PRESENT: the ones the pinned tree still has (used for the lock-step prediction only).
 ALL_DEVIATIONS = ["ParamLenZeroLoop", "ShortBody", "InitBundled", "DcepOpenExisting", "SackReversedGaps",
                   "SackGapWork", "SackGapOverflow", "NoTcb", "BadUtf8", "SackBeyondSent",
-                  "RembCount", "HdrExtLen", "EmptyDatagram"]
+                  "RembCount", "HdrExtLen", "EmptyDatagram",
+                  "SsnHeadOfLine", "ReinitKeepsSackState", "RembSsrcOverflow", "StaleFrameGuard"]
 
 # --------------------------------------------------------------------------- budget / guard
 
@@ -242,7 +243,7 @@ def tlv_walk(body):
 
 def sctp_facts(data, vtag, probe_streams=()):
     """Structural facts about an injected SCTP datagram (what was sent, not what should happen)."""
-    f = {"ctl": [], "tsns": [], "fwd": None, "probe_reset": False, "cause": None, "accepted": False}
+    f = {"ctl": [], "tsns": [], "dchunks": [], "fwd": None, "probe_reset": False, "cause": None, "accepted": False}
     if len(data) == 0:
         f["cause"] = "empty"
         return f
@@ -298,6 +299,7 @@ def sctp_facts(data, vtag, probe_streams=()):
     for t, fl, body in chunks:
         if t == 0 and len(body) >= 12:
             f["tsns"].append(struct.unpack_from("!L", body)[0])
+            f["dchunks"].append(struct.unpack_from("!LHH", body) + (fl,))
         elif t == 0 and len(body) == 0:
             f["tsns"].append(0)
         elif t == 192 and len(body) >= 4:
@@ -309,6 +311,22 @@ def sctp_facts(data, vtag, probe_streams=()):
                     if any(s in probe_streams for s in ids):
                         f["probe_reset"] = True
     return f
+
+
+def merge_facts(fs):
+    """Facts of a sequence of datagrams."""
+    if len(fs) == 1:
+        return fs[0]
+    m = {"ctl": sorted({x for f in fs for x in f["ctl"]}), "tsns": [x for f in fs for x in f["tsns"]],
+         "dchunks": [x for f in fs for x in f["dchunks"]], "fwd": next((f["fwd"] for f in reversed(fs) if f["fwd"] is not None), None),
+         "probe_reset": any(f["probe_reset"] for f in fs), "cause": next((f["cause"] for f in fs if f["cause"]), None),
+         "accepted": all(f["accepted"] for f in fs)}
+    return m
+
+
+def hexdump(burst):
+    h = " | ".join(d.hex() for d in burst)
+    return h if len(h) <= 200 else h[:200] + "..."
 
 
 def serial_gt(a, b):
@@ -361,6 +379,10 @@ class SctpCtx:
             self.reset_sid = env.chan[self.tok["gone"]]["A"].id
             env.close_channel("A", self.tok["gone"])
             env.heal_and_drain(400)
+            for _ in range(3):      # prior ordered traffic both ways on the probe stream (expected SSN = 3)
+                env.send("A", self.tok["probe"], 24)
+                env.send("B", self.tok["probe"], 24)
+                env.heal_and_drain(200)
             env.healed = False
             if st == "est_out":
                 env.send(self.v, self.tok["probe"], 40)
@@ -402,6 +424,11 @@ class SctpCtx:
             if ch is not None and ch.id is not None:
                 return ch.id
         return {"probe": 1001, "second": 1003, "gone": 1005}[name]      # no channels yet: unused streams
+
+    def vexp(self, sid):
+        """The stream sequence number V expects next on inbound stream `sid`."""
+        st = self.V._inbound_streams.get(sid)
+        return st.sequence_number if st is not None else 0
 
     def probe_streams(self):
         return (self.sid("probe"), self.sid("second"))
@@ -491,6 +518,45 @@ def _(c, cls):
 @sem("sctp", "DATA", "sseq_far")
 def _(c, cls):
     return [c.pkt(c_data(c.base, 9, q, 53, b"seq", 3)) for q in (30000, 65535, 32768)]
+
+
+@sem("sctp", "DATA", "sseq_stale")
+def _(c, cls):
+    # fresh TSN, complete message, ordered stream with prior traffic, stream sequence number already used
+    s, e = c.sid("probe"), c.vexp(c.sid("probe"))
+    return [c.pkt(c_data(c.base, s, (e - d) & 0xFFFF, 53, b"stale-ssn", 3)) for d in (2, 3, 1)] + \
+           [c.pkt(c_data(c.base, s, 0, 53, b"stale-ssn", 3)),
+            c.pkt(c_data(c.base, s, (e - 3) & 0xFFFF, 53, b"st1", 2), c_data(c.base + 1, s, (e - 3) & 0xFFFF, 53, b"st2", 1))]
+
+
+@sem("sctp", "DATA", "sseq_wrapped")
+def _(c, cls):
+    s, e = c.sid("probe"), c.vexp(c.sid("probe"))
+    return [c.pkt(c_data(c.base, s, (e - d) & 0xFFFF, 53, b"wrapped-ssn", 3)) for d in (30000, 32767, 32768)]
+
+
+@sem("sctp", "DATA", "sseq_future")
+def _(c, cls):
+    s, e = c.sid("probe"), c.vexp(c.sid("probe"))
+    return [c.pkt(c_data(c.base, s, (e + d) & 0xFFFF, 53, b"future-ssn", 3)) for d in (1000, 1, 32767, 5)]
+
+
+@sem("sctp", "DATA", "orphan_fragment")
+def _(c, cls):
+    # fresh TSN, no B flag: the fragment can never be completed (the TSN before it was something else)
+    s, e = c.sid("probe"), c.vexp(c.sid("probe"))
+    return [c.pkt(c_data(c.base, s, (e - d) & 0xFFFF, 53, b"orphan", fl)) for d, fl in ((2, 1), (0, 1), (2, 0), (0, 0), (65535, 1))]
+
+
+@sem("sctp", "ABORT", "then_reinit")
+def _(c, cls):
+    # a sequence of datagrams: gap DATA, ABORT, a new INIT with a distant initial TSN, DATA with that TSN
+    out = []
+    for back in (200000, 70000, 0x7FFF0000):
+        itsn = (c.lastrx - back) & M32
+        out.append([c.pkt(c_data(c.base + 3, 9, 0, 53, b"gap", 7)), c.pkt(chunk(6, 0, b"")),
+                    c.pkt(c_init(1, 0xAAAA0010, tsn=itsn), tag=0), c.pkt(c_data(itsn, 9, 0, 53, b"again", 7))])
+    return out
 
 
 @sem("sctp", "DATA", "dcep_open_existing")
@@ -969,20 +1035,24 @@ def sctp_probe(c, fill=()):
         tok = c.tok["probe"]
         if env.chan[tok]["A"] is None or env.chan[tok]["B"] is None:
             return False, ["channel"], {}
-        mv = env.send(v, tok, 24)
-        mp = env.send(p, tok, 24)
-        if mv is None or mp is None:
+        mvs = [env.send(v, tok, 24) for _ in range(3)]
+        mps = [env.send(p, tok, 24) for _ in range(3)]
+        if None in mvs or None in mps:
             return False, ["send"], {"states": [env.chan[tok][x].readyState for x in "AB"]}
         if "second" in c.tok:
             env.close_channel(v, c.tok["second"])
         steps = env.heal_and_drain(600)
         eps = env.quiesce()
-        got_p = [e for e in env.events[n0:] if e.get("k") == "msg" and e["e"] == p and e.get("m") == mv]
-        got_v = [e for e in env.events[n0:] if e.get("k") == "msg" and e["e"] == v and e.get("m") == mp]
-        if len(got_p) != 1 or not got_p[0]["intact"]:
+        got_p = [[e for e in env.events[n0:] if e.get("k") == "msg" and e["e"] == p and e.get("m") == m] for m in mvs]
+        got_v = [[e for e in env.events[n0:] if e.get("k") == "msg" and e["e"] == v and e.get("m") == m] for m in mps]
+        if any(len(g) != 1 or not g[0]["intact"] for g in got_p):
             what.append("victim_to_peer_not_delivered")
-        if len(got_v) != 1 or not got_v[0]["intact"]:
+        if any(len(g) != 1 or not g[0]["intact"] for g in got_v):
             what.append("peer_to_victim_not_delivered")
+        order_v = [e["m"] for e in env.events[n0:] if e.get("k") == "msg" and e["e"] == v and e.get("m") in mps]
+        order_p = [e["m"] for e in env.events[n0:] if e.get("k") == "msg" and e["e"] == p and e.get("m") in mvs]
+        if order_v != sorted(order_v) or order_p != sorted(order_p):
+            what.append("ordered_messages_reordered")
         if "second" in c.tok:
             sec = env.chan[c.tok["second"]]
             if any(sec[x] is not None and sec[x].readyState != "closed" for x in "AB"):
@@ -1013,16 +1083,20 @@ def sctp_case(case, full, guard):
         if c is None:
             c = SctpCtx(case["role"], case["st"], case.get("origin", 0))
         try:
-            facts = sctp_facts(data, c.vtag, c.probe_streams())
+            burst = list(data) if isinstance(data, (list, tuple)) else [data]
+            facts = merge_facts([sctp_facts(d, c.vtag, c.probe_streams()) for d in burst])
             env = c.env
             before = c.assoc()
             lastrx0 = c.V._last_received_tsn
             env.begin_step()
-            res = guard.call(lambda: env.loop.run(c.V._handle_data(data)), budget(len(data)))
-            try:
-                env.loop.drain()
-            except Exception:
-                pass
+            for data in burst:      # a class may be a short sequence of datagrams; judged at the first that fails
+                res = guard.call(lambda: env.loop.run(c.V._handle_data(data)), budget(len(data)))
+                try:
+                    env.loop.drain()
+                except Exception:
+                    pass
+                if res["exc"] != "none" or res["timeout"] or env.loop.task_exceptions:
+                    break
             tex = task_excs(env)
             if any(h for _, _, h in tex):
                 res["timeout"] = True
@@ -1036,7 +1110,7 @@ def sctp_case(case, full, guard):
                     "len": len(data), "exc": res["exc"], "fn": res["fn"], "timeout": res["timeout"], "work": res["work"],
                     "task_exc": tex[0][0] if tex else "none", "task_fn": tex[0][1] if tex else "none",
                     "ctl": facts["ctl"], "probe_reset": facts["probe_reset"], "down": c.V.state == "closed",
-                    "before": before, "after": c.assoc(), "hex": data.hex() if len(data) <= 96 else data[:96].hex() + "...",
+                    "before": before, "after": c.assoc(), "hex": hexdump(burst),
                     "cause": cause or "%s/%s" % (case["k"], case["c"] if case["m"] == "none" else "~" + case["m"])}
             steps = [step]
             clean = res["exc"] == "none" and not res["timeout"] and not tex
@@ -1057,6 +1131,10 @@ def sctp_case(case, full, guard):
                                  if (x & M32) not in near]
                         P._local_tsn = (top + 1) & M32
                         fill = holes
+                    # a complete ordered message that used the peer's next stream sequence number consumed it
+                    for (tsn, sid, sseq, fl) in facts["dchunks"]:
+                        if not (fl & 4) and (fl & 3) == 3 and sid in P._outbound_stream_seq and P._outbound_stream_seq[sid] == sseq:
+                            P._outbound_stream_seq[sid] = (sseq + 1) & 0xFFFF
                 served, what, detail = sctp_probe(c, fill)
                 steps.append({"op": "probe", "sub": "sctp", "st": case["st"], "served": bool(served), "what": what[:3],
                               "ctl": facts["ctl"], "probe_reset": facts["probe_reset"], "after": c.assoc()})
@@ -1349,7 +1427,7 @@ def media_probe(m):
     try:
         n0 = len(m.decoded)
         tags, ok = [], False
-        for _ in range(200):
+        for _ in range(400):      # up to ~13 s of video
             tags.append(m.video_frame())
             new = [d for d in m.decoded[n0:] if d is not None]
             if any(any(t in getattr(fr, "data", b"") for t in tags) for _, fr in new):
@@ -1360,7 +1438,7 @@ def media_probe(m):
         if not ok:
             what.append("video_frame_not_decoded")
         n0, tags, ok = len(m.decoded), [], False
-        for _ in range(60):
+        for _ in range(700):      # up to 14 s of audio
             tags.append(m.audio_packet())
             new = [d for d in m.decoded[n0:] if d is not None]
             if any(any(t in getattr(fr, "data", b"") for t in tags) for _, fr in new):
@@ -1407,6 +1485,16 @@ def _ast(v=0x123456):
 def _(m, cls):
     return [rtp_pkt(PT_VP8, m.vseq, m.vts, 0xDEAD0001, _vp(m)), rtp_pkt(PT_PCMU, 7, 7, 0xDEAD0002, b"a" * 160),
             rtp_pkt(PT_H264, 1, 1, 0, b"\x65abc")]
+
+
+@sem("media", "RTP", "many_ssrcs")
+def _(m, cls):
+    # a sequence of datagrams: one valid-looking packet from each of N distinct unknown SSRCs
+    def burst(n, pt, ext):
+        return [rtp_pkt(pt, 5000 + i, 90000 + i * 3000, 0xABC00000 + i, _vp(m, b"x" * 100), marker=1,
+                        ext=ext1([ext(i)])) for i in range(n)]
+    return [burst(300, PT_VP8, lambda i: (EXT["abs_send_time"], _ast((i * 27000) & 0xFFFFFF))),
+            burst(300, PT_PCMU, lambda i: (EXT["audio_level"], b"\x85"))]
 
 
 @sem("media", "RTP", "unknown_pt")
@@ -1747,11 +1835,22 @@ def media_case(case, full, guard):
         if m is None:
             m = MediaEnv(case["st"])
         try:
-            facts = media_facts(data)
-            known = [s for s in facts["bye"] if s in (V_SSRC, A_SSRC, V_RTX_SSRC)]
-            m.loop.wall += 0.005
-            m.ice.rx.put_nowait(bytes(data))
-            res = guard.call(lambda: m.loop.drain(), budget(len(data)))
+            burst = list(data) if isinstance(data, (list, tuple)) else [data]
+            known = [s for d in burst for s in media_facts(d)["bye"] if s in (V_SSRC, A_SSRC, V_RTX_SSRC)]
+            # structural fact: an RTP datagram for one of the receivers whose timestamp is ahead of the valid stream
+            ts_ahead = False
+            for d in burst:
+                if len(d) >= 12 and (d[0] >> 6) == 2 and not (192 <= d[1] <= 208):
+                    pt, ts = d[1] & 0x7F, struct.unpack_from("!L", d, 4)[0]
+                    ref = m.vts if pt in (PT_VP8, PT_RTX, PT_H264, PT_RTX_BADAPT) else m.ats if pt in (PT_PCMU, PT_OPUS) else None
+                    if ref is not None and serial_gt(ts, ref & M32):
+                        ts_ahead = True
+            for data in burst:      # a class may be a sequence of datagrams; judged at the first that fails
+                m.loop.wall += 0.005 if len(burst) == 1 else 0.03
+                m.ice.rx.put_nowait(bytes(data))
+                res = guard.call(lambda: m.loop.drain(), budget(len(data)))
+                if res["exc"] != "none" or res["timeout"] or m.down():
+                    break
             lexc = m.loop_exc()
             exc, fn, timeout = res["exc"], res["fn"], res["timeout"]
             if isinstance(lexc, Hang):
@@ -1767,10 +1866,19 @@ def media_case(case, full, guard):
                     "task_exc": tex[0][0] if tex else "none", "task_fn": tex[0][1] if tex else "none",
                     "ctl": ["BYE_KNOWN"] if known else [], "probe_reset": False, "down": bool(m.down()),
                     "before": case["st"], "after": "closed" if m.down() else "up",
-                    "hex": data.hex() if len(data) <= 96 else data[:96].hex() + "...",
-                    "cause": "empty" if not data else "%s/%s" % (case["k"], case["c"] if case["m"] == "none" else "~" + case["m"])}
+                    "hex": hexdump(burst[:3]),
+                    "cause": "empty" if not data else "rtp_timestamp_ahead" if ts_ahead else
+                             "%s/%s" % (case["k"], case["c"] if case["m"] == "none" else "~" + case["m"])}
             steps = [step]
             if exc == "none" and not timeout and not tex and not m.down():
+                # the valid stream continues behind the sequence numbers the hostile sender used on its SSRCs
+                for d in burst:
+                    if len(d) >= 12 and (d[0] >> 6) == 2 and not (192 <= d[1] <= 208):
+                        q, ssrc = struct.unpack_from("!H", d, 2)[0], struct.unpack_from("!L", d, 8)[0]
+                        if ssrc == V_SSRC and ((q - m.vseq) & 0xFFFF) < 64:
+                            m.vseq = (q + 1) & 0xFFFF
+                        elif ssrc == A_SSRC and ((q - m.aseq) & 0xFFFF) < 64:
+                            m.aseq = (q + 1) & 0xFFFF
                 served, what = media_probe(m)
                 steps.append({"op": "probe", "sub": "media", "st": case["st"], "served": bool(served), "what": what[:3],
                               "ctl": step["ctl"], "probe_reset": False, "after": "closed" if m.down() else "up"})
@@ -1816,12 +1924,20 @@ def _parser_fn(name):
     raise T.MachineryError("unknown parser %r" % name)
 
 
+def _flat(variants):
+    """Variants that are sequences of datagrams contribute their (first few) datagrams."""
+    out = []
+    for v in variants:
+        out += list(v)[:4] if isinstance(v, (list, tuple)) else [v]
+    return out
+
+
 def _sctp_corpus(full):
     c = SctpCtx("client", "est_out")
     out = []
     try:
         for (k, cl) in sorted(SEM["sctp"]):
-            out += [("%s/%s" % (k, cl), d) for d in SEM["sctp"][(k, cl)](c, cl)]
+            out += [("%s/%s" % (k, cl), d) for d in _flat(SEM["sctp"][(k, cl)](c, cl))]
         for k in SCTP_KINDS:
             for mu in SCTP_MUTS + (SCTP_PARAM_MUTS if k in SCTP_PARAM_KINDS else []):
                 r = random.Random("p|%s|%s" % (k, mu))
@@ -1838,7 +1954,7 @@ def _media_corpus(full):
     out = []
     try:
         for (k, cl) in sorted(SEM["media"]):
-            out += [("%s/%s" % (k, cl), d) for d in SEM["media"][(k, cl)](m, cl)]
+            out += [("%s/%s" % (k, cl), d) for d in _flat(SEM["media"][(k, cl)](m, cl))]
         for k in MEDIA_KINDS:
             for mu in MEDIA_MUTS:
                 out += [("%s/~%s" % (k, mu), d) for d in media_mutants(m, k, mu, full, random.Random("p|%s|%s" % (k, mu)))]
